@@ -59,3 +59,19 @@ func init() {
 			"join.RightDir = parents[1].Primary().Order.Direction()", "join.RightDir = parents[0].Primary().Order.Direction()", "C10-J2", "dag.Join.RightDir"},
 	)
 }
+
+func init() {
+	addMutants(
+		Mutant{"C13", "c13-copy-shares-objects", "lake/commits/snapshot.go", "Snapshot.Copy",
+			"for key, val := range s.objects {\n\t\tout.objects[key] = val\n\t}\n", "out.objects = s.objects\n", "C13-M3", "Copy field objects"},
+		Mutant{"C13", "c13-copy-forgets-vectors", "lake/commits/snapshot.go", "Snapshot.Copy",
+			"for key := range s.vectors {\n\t\tout.vectors[key] = struct{}{}\n\t}\n", "", "C13-M3", "Copy field vectors"},
+	)
+}
+
+func init() {
+	addMutants(
+		Mutant{"C19", "c19-remote-delete-drops-message", "lake/api/remote.go", "remote.Delete",
+			"r.conn.Delete(ctx, poolID, branchName, tags, commit)", "r.conn.Delete(ctx, poolID, branchName, tags, api.CommitMessage{})", "C19-K4", "remote).Delete parameter commit"},
+	)
+}
